@@ -582,6 +582,10 @@ func c07Fallback(c *Ctx, sx *symx.Ctx, pf *ssa.Function) {
 						if x == loopM.Index && strings.Contains(f.Plain(y), ".Limit") && (op == token.GEQ || op == token.GTR) && k == 0 {
 							allowed = true
 						}
+						// the same limit as a loop condition: left when i < limit is false
+						if x == loopM.Index && strings.Contains(f.Plain(y), ".Limit") && (op == token.LSS || op == token.LEQ) && k == 1 {
+							allowed = true
+						}
 					}
 				}
 				if ok && !allowed {
